@@ -53,6 +53,12 @@ pub trait Intersect {
 
 pub trait Potential {
     fn energy(&self, other: &Self) -> f64;
+
+    /// The distance between the origins of two copies beyond which their energy is zero, when
+    /// there is such a distance.
+    fn interaction_range(&self) -> Option<f64> {
+        None
+    }
 }
 
 pub trait Shape:
